@@ -219,7 +219,7 @@ def observe(rec, paths, which=1):
             dec = decode_x86_site(pr, "abs32z", s + 1)
         else:
             dec = decode_x86_site(pr, "pc32", s + 3)
-        views[m] = dec.value + (8 if (m == "E" and "/www/" in str(paths[0])) else 0)   # MUTATION DEMO
+        views[m] = dec.value
     di = MODS.index(rec["def"])
     xdef = pr.find(mk("x_def").encode(), pr.mods[di])
     if len(xdef) != 1:
